@@ -332,6 +332,21 @@ def simLine (toks : List String) : Option String :=
     let t ← parseRats? (← kv rest "t")
     let train (a : Nat) : Rat := match arms.idxOf? a with | some i => t.getD i 0 | none => 0
     some (";".intercalate ((evaluate arms d r p train).map fun q => s!"{q.1}={q.2.length}:{showRat q.2.sum}"))
+  | "evalnn" :: rest => do
+    -- `n=` one record per test row, rows separated by `;`: `e` = empty record, else per arm (arm order) a value or `-`
+    let arms ← parseNats? (← kv rest "arms")
+    let d ← parseNats? (← kv rest "d")
+    let r ← parseRats? (← kv rest "r")
+    let p ← parseNats? (← kv rest "p")
+    let t ← parseRats? (← kv rest "t")
+    let nraw := (← kv rest "n").splitOn ";"
+    let train (a : Nat) : Rat := match arms.idxOf? a with | some i => t.getD i 0 | none => 0
+    let nbrs : List (Option (Nat → Option Rat)) ← nraw.mapM fun row =>
+      if row = "e" then some none
+      else do
+        let vals ← (row.splitOn ",").mapM fun x => if x = "-" then some none else (parseRat? x).map some
+        some (some fun a => match arms.idxOf? a with | some i => vals.getD i none | none => none)
+    some (";".intercalate ((evaluateNN arms d r p train nbrs).map fun q => s!"{q.1}={q.2.length}:{showRat q.2.sum}"))
   | _ => none
 
 partial def loop (h : IO.FS.Stream) (out : IO.FS.Stream) (st : DState) : IO Unit := do
